@@ -221,6 +221,13 @@ Fixpoint nanswers (defs : list nfa) (st : list memo) (qs : list nquery) : list n
   | q :: r => snd (nstep defs st q) :: nanswers defs (fst (nstep defs st q)) r
   end.
 
+(* the states passed through (after each query), for the harness: which memos are filled *)
+Fixpoint nstates (defs : list nfa) (st : list memo) (qs : list nquery) : list (list memo) :=
+  match qs with
+  | [] => []
+  | q :: r => fst (nstep defs st q) :: nstates defs (fst (nstep defs st q)) r
+  end.
+
 (* ---- the stateless answers: every table computed from scratch at every use, no state ---- *)
 Definition pure_with (defs : list nfa) (i : nat) (k : nfa -> table -> nanswer) : nanswer :=
   match nth_error defs i with
